@@ -49,6 +49,29 @@ CHECKS.update({
     },
 })
 
+CHECKS.update({
+    "C02": {
+        "text": "Bounded model checking of (a) extensionality: for symbolic pairs a==b iff no assignment differs (Skolem witness: lowest differing bit, which must be < 2^n), cmp==Equal iff ==, equal values feed identical byte streams to a recording Hasher, Luts of different n never equal; (b) well-formedness as an inductive invariant: ONE step of every public producer (28 operator forms, mutators, flip/swap/cofactors/from_cofactors, all named constructors with parameters over all usize, conversions, iterator successor kernel, every Ok value of from_hex_string over fully symbolic input strings) from arbitrary well-formed operands yields a well-formed table. Composition over finite histories is the stated pen-and-paper step. quick n=0..8, thorough n=0..12.",
+        "design_ref": "DESIGN.md section 5 / C02",
+        "technique": "Kani/CBMC bounded model checking: one inductive step per producer from an arbitrary well-formed state + Skolemised extensionality",
+    },
+    "C06": {
+        "text": "Bounded model checking that top_decomposition / is_pos_unate / is_neg_unate EQUAL (sound and complete in one query) the class derived from the two cofactor tables by the property's priority order, for symbolic table and symbolic variable; the harness cofactor tables are tied to the definition by a separate solver-checked lemma (bit m of C0/C1 is f(m with x_v cleared/set)). quick n=1..8 (v symbolic), thorough n=9..10 symbolic v, n=11..12 concrete v under caps.",
+        "design_ref": "DESIGN.md section 5 / C06",
+        "technique": "Kani/CBMC bounded model checking against a two-piece definitional oracle (cofactor lemma + classification)",
+    },
+    "C09": {
+        "text": "Bounded model checking of from_hex_string over strings whose every byte is symbolic: exactly-width ASCII strings (n=0..6 quick, n=7 thorough) are Ok iff all bytes are hex digits and the value fits, with exactly the denoted well-formed table; every other length 0..=width+2 is Err; a 2-byte UTF-8 character at a symbolic position (also straddling the 16-digit chunk boundary) is Err without panic. Printing is weaker (core::fmt cost): to_hex_string length and digit at a symbolic position for n<=2 quick (n<=5 thorough, capped), to_bin_string and parse(print(f)) only in thorough under caps. Display/LowerHex/Binary wrappers and printing for n>=6 are outside the claim.",
+        "design_ref": "DESIGN.md section 5 / C09",
+        "technique": "Kani/CBMC bounded model checking with fully symbolic input bytes (parser) and symbolic digit position (printer)",
+    },
+    "C10": {
+        "text": "Differential bounded model checking per exported alias LutN: Lut::from / try_from round trips and rejection of every other size 0..13; for symbolic functions and arguments the same operation on LutN and on Lut gives corresponding results (operators, value, cmp, set_value, flip, swap, swap_adjacent, cofactors, from_cofactors, top_decomposition, unateness, all named constructors with parameters over all usize, first iterator items, from_hex_string on symbolic strings for N<=5); u8/u16/u32/u64 conversions of Lut3..Lut6 bit-exact for all integers. quick N=0..8, thorough all 13 aliases. bdd_complexity pairs are outside (C07); canonization triples are compared at the sizes of C04/C05.",
+        "design_ref": "DESIGN.md section 5 / C10",
+        "technique": "Kani/CBMC differential bounded model checking (LutN vs Lut on the same symbolic function)",
+    },
+})
+
 NOT_APPLICABLE = {
     "C07": "bdd_complexity is Vec push/retain/sort/dedup under symbolic conditions: a single symbolic function at n=2 does not finish in 900 s under Kani/CBMC (n<=1 is vacuous); no bound at which the property says anything is reachable by the solver",
     "C14": "every Sop operation goes through from_cubes ((0..32).filter over a symbolic mask) or conditional Vec::push and ends in simplify (retain/sort/dedup): '|' and '&' on 1x1 cubes at n=2 exceed 900 s under Kani/CBMC; cube-level facts it relies on are decided in C12",
